@@ -78,7 +78,7 @@ def indented():
              (['     w', '    x'], ' w\nx\n'), (['    <a> &amp; *b*'], '<a> &amp; *b*\n'), (['    - w'], '- w\n'), (['    # w', '    > x'], '# w\n> x\n')]
     for lines, content in cases:
         yield ('indented', lines, '<pre><code>%s</code></pre>\n' % esc(content), dict(lines=lines), False)
-    tabs = [(['\tw'], 'w\n'), (['  \tw'], 'w\n'), (['    \tw'], '\tw\n'), (['\t\tw'], '\tw\n'), (['\tw', '    x'], 'w\nx\n'), (['   \tw\tx'], 'w\tx\n')]
+    tabs = [(['\t<div>'], '<div>\n'), (['  \t<!-- c -->'], '<!-- c -->\n'), ([' \t<pre>', '\tx'], '<pre>\nx\n'), (['\tw'], 'w\n'), (['  \tw'], 'w\n'), (['    \tw'], '\tw\n'), (['\t\tw'], '\tw\n'), (['\tw', '    x'], 'w\nx\n'), (['   \tw\tx'], 'w\tx\n')]
     for lines, content in tabs:
         yield ('indented-tab', lines, '<pre><code>%s</code></pre>\n' % esc(content), dict(lines=lines), False)
 
@@ -185,14 +185,15 @@ def lazy_lines():
     """paragraph continuation text without the container's marker / indentation. A lazy line indented four or more columns stays
     paragraph text whatever it looks like; a lazy line can never be a setext underline"""
     texts = [('x', 'x'), ('    # x', '# x'), ('    - x', '- x'), ('    1. x', '1. x'), ('    ***', '***'), ('    ```', '```'), ('     <b>', '<b>'),
-             ('    > x', '&gt; x'), ('    | a |', '| a |'), ('   x', 'x'), ('===', '==='), ('  =', '=')]
+             ('    > x', '&gt; x'), ('    | a |', '| a |'), ('   x', 'x'), ('===', '==='), ('  =', '='), ('\t<b>', '<b>'), ('\t<div>', '<div>'),
+             ('\t# x', '# x')]
     for raw, want in texts:
         yield ('lazy', ['> w', raw], '<blockquote>\n<p>w\n%s</p>\n</blockquote>\n' % want, dict(container='quote', line=raw), False)
         yield ('lazy', ['> > w', raw], '<blockquote>\n<blockquote>\n<p>w\n%s</p>\n</blockquote>\n</blockquote>\n' % want, dict(container='quote in quote', line=raw), False)
         yield ('lazy', ['> - w', raw], '<blockquote>\n<ul>\n<li>w\n%s</li>\n</ul>\n</blockquote>\n' % want, dict(container='item in quote', line=raw), False)
         if not raw.startswith('    ') or True:
             # in a list item a line indented to the content column or beyond is an ordinary continuation line; fewer columns = lazy
-            if not raw.startswith('  '):
+            if not raw.startswith(('  ', '\t')):
                 yield ('lazy', ['- w', raw], '<ul>\n<li>w\n%s</li>\n</ul>\n' % want, dict(container='item', line=raw), False)
                 yield ('lazy', ['10. w', ' ' + raw], '<ol start="10">\n<li>w\n%s</li>\n</ol>\n' % want, dict(container='ordered item', line=' ' + raw), False)
 
@@ -248,7 +249,7 @@ def lazy_line_reinterpreted(case):
     fam, lines, html, label, _ = case
     if fam != 'lazy':
         return False
-    if label['container'] == 'item in quote' and label['line'].startswith('    ') and label['line'].strip() not in ('x', '<b>', '| a |'):
+    if label['container'] == 'item in quote' and label['line'].startswith(('    ', '\t')) and label['line'].strip() not in ('x', '<b>', '| a |', '<div>'):
         return True
     if label['container'] in ('item', 'ordered item', 'item in quote') and set(label['line'].strip()) == {'='}:
         return True
